@@ -140,6 +140,27 @@ func exposureStructure(c *core.Ctx, r *core.Report, l *lifecycleRoles, rule1, ru
 }
 
 // exposureAtom classifies one atom of the early-exposure condition; "" = not allowed.
+// onlyConstantOf: the one constant every in-scope store gives the field (ok=false if there is none or several).
+func onlyConstantOf(c *core.Ctx, fa *ssa.FieldAddr) (string, bool) {
+	fr, ok := core.FieldOfAddr(fa)
+	if !ok {
+		return "", false
+	}
+	stores, _ := c.FieldAccesses(fr.Owner, fr.Name)
+	only := ""
+	for _, st := range stores {
+		k, isK := st.Store.Val.(*ssa.Const)
+		if !isK || k.Value == nil {
+			return "", false
+		}
+		if only != "" && only != k.Value.ExactString() {
+			return "", false
+		}
+		only = k.Value.ExactString()
+	}
+	return only, only != ""
+}
+
 func exposureAtom(c *core.Ctx, ro *core.Roles, cond ssa.Value) string {
 	cond = core.Norm(cond)
 	if phi, ok := cond.(*ssa.Phi); ok {
@@ -182,6 +203,54 @@ func exposureAtom(c *core.Ctx, ro *core.Roles, cond ssa.Value) string {
 			}
 		}
 		return ""
+	}
+	if bo, ok := cond.(*ssa.BinOp); ok && bo.Op == token.EQL {
+		// a policy field of a small named type compared with the one constant it is ever given
+		fld, k := bo.X, bo.Y
+		if _, isK := fld.(*ssa.Const); isK {
+			fld, k = bo.Y, bo.X
+		}
+		// a local state variable (a phi of constants) compared with one of its constants: the branches that select
+		// its value must test allowed atoms only
+		if phi, isPhi := fld.(*ssa.Phi); isPhi {
+			if _, isK := k.(*ssa.Const); isK {
+				allConst := true
+				for _, e := range phi.Edges {
+					if _, ok := e.(*ssa.Const); !ok {
+						allConst = false
+					}
+				}
+				b := phi.Block()
+				if idom := b.Idom(); allConst && idom != nil {
+					n := 0
+					for _, x := range b.Parent().Blocks {
+						if x == b || !idom.Dominates(x) || !core.BlockReaches(x, b) || b.Dominates(x) {
+							continue
+						}
+						if iff, isIf := x.Instrs[len(x.Instrs)-1].(*ssa.If); isIf {
+							n++
+							if exposureAtom(c, ro, iff.Cond) == "" {
+								return ""
+							}
+						}
+					}
+					if n > 0 {
+						return "state variable selected by allowed atoms"
+					}
+				}
+			}
+			return ""
+		}
+		if u, isU := core.Norm(fld).(*ssa.UnOp); isU && u.Op == token.MUL {
+			if fa, isFA := u.X.(*ssa.FieldAddr); isFA {
+				if kc, isK := k.(*ssa.Const); isK && kc.Value != nil {
+					if only, ok2 := onlyConstantOf(c, fa); ok2 && only == kc.Value.ExactString() {
+						fr, _ := core.FieldOfAddr(fa)
+						return "policy field " + fr.Name + " (only ever stored " + only + ")"
+					}
+				}
+			}
+		}
 	}
 	if u, ok := cond.(*ssa.UnOp); ok && u.Op == token.MUL {
 		if fa, isFA := u.X.(*ssa.FieldAddr); isFA && isBoolType(fa) {
